@@ -217,8 +217,9 @@ impl LruManager {
             self.key_map.len()
         );
 
-        // Delete previous generation file
-        if self.prev_generation != 0 {
+        // Delete previous generation file (never the one just written:
+        // after `load_from_disk(prev_generation)` both counters are equal)
+        if self.prev_generation != 0 && self.prev_generation != self.generation {
             let prev_path = lru_file_path(&self.data_dir, self.prev_generation);
             if let Err(e) = tokio::fs::remove_file(&prev_path).await
                 && e.kind() != std::io::ErrorKind::NotFound
